@@ -13,6 +13,10 @@ ABC = ['a', 'b', 'c']
 def orders_for(ctx, names, quick_n=1):
     perms = list(itertools.permutations(names))
     if ctx.tier == 'thorough':
+        if ctx.nshards > 1:
+            # the shards of a thorough run split the orders between them
+            m = min(ctx.nshards, len(perms))
+            return [p for k, p in enumerate(perms) if k % m == ctx.shard % m]
         return perms
     k = ctx.seed % len(perms)
     return [perms[(k + i) % len(perms)] for i in range(quick_n)]
